@@ -149,7 +149,7 @@ def handleS08 (toks : List String) : String :=
     -- `nu8:`: the destination's name is not valid UTF-8 — irrelevant to what compile does
     -- `long:` a 255-byte name; `lnkrel:` / `lnkabs:` a symbolic link (live or dangling) — the
     -- destination as read through the given path afterwards is what the model describes
-    let dest := (["nu8:", "long:", "lnkrel:", "lnkabs:"].foldl
+    let dest := (["nu8:", "long:", "lnkrel:", "lnkabs:", "hard:"].foldl
       (fun d pre => if d.startsWith pre then (d.drop pre.length).toString else d) dest)
     let d : Option Dest :=
       if dest == "absent" then some (.file none)
